@@ -92,6 +92,14 @@ def gen_documents(ctx, n):
         if rng.random() < .4 and "metadata" in gen.raw(b.type)["properties"]:
             b.items.insert(rng.randrange(len(b.items) + 1), ("kv", "metadata", [(rng.choice(["a", "wms_t", "k1"]), gen.rstring(rng)) for _ in range(rng.randint(1, 3))]))
         if i % 3 == 2:
+            if rng.random() < .3:
+                # a quoted string that spans lines (LF, CRLF, a lone CR): content, whatever the bookkeeping flags
+                props = gen.raw(b.type)["properties"]
+                cands = [k for k in ("data", "template", "text", "header", "footer", "title") if k in props and any(sh[0] == "string" for sh in gen.shapes(props[k], k))
+                         and not any(len(it) > 1 and it[1] == k for it in b.items)]
+                if cands:
+                    v = rng.choice(["SELECT a\r\n  FROM t\r\n WHERE x", "two\nlines", "cr\ronly", "mixed\r\nand\nboth"])
+                    b.items.append(("attr", rng.choice(cands), v, [(v, "qstr")], "string"))
             text = gen.render(b, gen.Layout(rng, plain=False))
             out.append((text, "free-layout"))
             continue
